@@ -22,12 +22,23 @@ class World:
         return g
 
     def resolve(self, module, name):
+        if module in BUILTIN_FAMILY and not _builtin_exists(module, name):
+            # the real VM cannot resolve a builtin that does not exist; such programs are outside every quantifier
+            raise AttributeError(f"module {module!r} has no attribute {name!r}")
         self.log.append(("import", module, name))
         if name == "frozenset" and module in BUILTIN_FAMILY:
             # transparent builtin: fickling renders the FROZENSET opcode as a frozenset({...}) call, so
             # the name must mean the real type on both sides (its calls are then not logged on either)
             return frozenset
         return self.G(module, name)
+
+
+def _builtin_exists(module, name):
+    import _compat_pickle
+    import builtins
+
+    first = name.split(".")[0]
+    return hasattr(builtins, first) or (module, name) in _compat_pickle.NAME_MAPPING
 
 
 class Stub:
@@ -100,9 +111,10 @@ class IStub(Stub):
             snap = canon_creation(state)
         except RecursionError:
             snap = ("cyclic",)
-        self._w.log.append(("setstate", self, snap))
+        self._w.log.append(("setstate", self, snap, state))
 
     def __setitem__(self, k, v):
+        hash(k)  # a real mapping rejects unhashable keys
         self.items.append((k, v))
         self._w.log.append(("setitem", self, k, v))
 
@@ -164,13 +176,21 @@ def canon(v, _path=None, deep=True):
                 "obj",
                 v.created,
                 tuple(canon(s, _path) for s in v.states),
-                tuple((canon(k, _path), canon(x, _path)) for k, x in v.items),
+                _canon_items(v.items, _path),
             )
         if t is type:
             return ("type", v.__module__, v.__qualname__)
         return ("other", t.__name__, repr(v))
     finally:
         _path.discard(i)
+
+
+def _canon_items(items, _path):
+    """Item assignments recorded on a stub, with mapping semantics: last value per key, order of first insertion."""
+    d = {}
+    for k, x in items:
+        d[repr(canon(k, _path))] = (canon(k, _path), canon(x, _path))
+    return tuple(d.values())
 
 
 def canon_creation(v):
@@ -201,6 +221,25 @@ def safe_canon_creation(v):
         return ("cyclic",)
 
 
+def late_mutation(world):
+    """True if some mutable object was changed *after* it had been passed to a call or applied as state: the reference VM
+    then performed the call with a value that a source-level rendering which mutates literals in place cannot show."""
+    for ev in world.log:
+        try:
+            if ev[0] in ("call", "new", "persid"):
+                inst = ev[1]
+                if inst.created[3] != tuple(canon_creation(x) for x in inst.args):
+                    return True
+                if inst.created[4] != tuple(sorted(((k, canon_creation(x)) for k, x in inst.kwargs.items()), key=repr)):
+                    return True
+            elif ev[0] == "setstate":
+                if ev[2] != canon_creation(ev[3]):
+                    return True
+        except RecursionError:
+            return True
+    return False
+
+
 def events(world):
     """(imports, calls) of a world's log as lists of canonical tuples.
 
@@ -226,8 +265,12 @@ def events(world):
 class RefVM(_p._Unpickler):
     """Pure-Python unpickler, steppable one opcode at a time, resolving everything to stubs."""
 
-    def __init__(self, data, world=None):
+    def __init__(self, data, world=None, typed=False):
         super().__init__(io.BytesIO(data))
+        self.typed = typed
+        self.consumed = {}  # id -> object: mutable containers already handed to a call / applied as state
+        self.late_mutation = False
+        self.unordered_args = False  # a set/frozenset star-unpacked as call arguments: order is hash-dependent
         self.world = world or World()
         self._unframer = _p._Unframer(self._file_read, self._file_readline)
         self.read = self._unframer.read
@@ -253,6 +296,7 @@ class RefVM(_p._Unpickler):
         key = self.read(1)
         if not key:
             raise EOFError
+        self._before(key[0])
         try:
             self.dispatch[key[0]](self)
         except _p._Stop as s:
@@ -266,6 +310,55 @@ class RefVM(_p._Unpickler):
         while self.step():
             pass
         return self.result
+
+    _MUTATORS = {_p.APPEND[0]: "append", _p.APPENDS[0]: "appends", _p.SETITEM[0]: "setitem", _p.SETITEMS[0]: "setitems",
+                 _p.ADDITEMS[0]: "additems", _p.BUILD[0]: "build"}
+
+    def _before(self, op):
+        """Typing discipline (optional) and bookkeeping of containers consumed by call-making opcodes."""
+        st, ms = self.stack, self.metastack
+        g = self._MUTATORS.get(op)
+        if g is not None:
+            if self.typed and not guard_ok(self, g):
+                raise TypingDisabled(g)
+            try:
+                target = {"append": lambda: st[-2], "appends": lambda: ms[-1][-1], "setitem": lambda: st[-3],
+                          "setitems": lambda: ms[-1][-1], "additems": lambda: ms[-1][-1], "build": lambda: None}[g]()
+            except IndexError:
+                target = None
+            if target is not None and id(target) in self.consumed:
+                self.late_mutation = True
+        try:
+            if op in (_p.REDUCE[0], _p.NEWOBJ[0]) and type(st[-1]) in (set, frozenset) and len(st[-1]) > 1:
+                self.unordered_args = True
+            if op in (_p.REDUCE[0], _p.NEWOBJ[0], _p.BUILD[0]):
+                self._consume(st[-1])
+            elif op == _p.NEWOBJ_EX[0]:
+                self._consume(st[-1])
+                self._consume(st[-2])
+            elif op in (_p.OBJ[0], _p.INST[0]):
+                for x in st:
+                    self._consume(x)
+            elif op == _p.BINPERSID[0]:
+                self._consume(st[-1])
+        except IndexError:
+            pass
+
+    def _consume(self, v, depth=0):
+        if depth > 6:
+            return
+        t = type(v)
+        if t in (list, dict, set):
+            if id(v) in self.consumed:
+                return
+            self.consumed[id(v)] = v
+        if t in (list, tuple, set, frozenset):
+            for x in v:
+                self._consume(x, depth + 1)
+        elif t is dict:
+            for k, x in v.items():
+                self._consume(k, depth + 1)
+                self._consume(x, depth + 1)
 
     # -- observation ---------------------------------------------------------------------------
     def depth(self):
@@ -287,6 +380,10 @@ class RefVM(_p._Unpickler):
             out.append(MARK)
         out.extend(self.stack)
         return out
+
+
+class TypingDisabled(Exception):
+    pass
 
 
 class _Mark:
